@@ -86,10 +86,19 @@ def algo_spelling(names=None):
     return st.sampled_from(names).flatmap(lambda n: st.sampled_from(spellings(n)))
 
 
-def store_cfgs(vary_layout=False):
+# layouts in which depth x width consumes the WHOLE digest (no remainder token): the file name is the last token
+EXACT_LAYOUTS = {"MD5": (4, 8), "SHA-1": (5, 8), "SHA-256": (4, 16), "SHA-384": (6, 16), "SHA-512": (8, 16)}
+
+
+def store_cfgs(vary_layout=False, exact=True):
     if vary_layout:
-        return st.builds(lambda a, d, w: {"algo": a, "depth": d, "width": w},
-                         st.sampled_from(sorted(common.STORE_ALGOS)), st.integers(1, 4), st.integers(1, 3))
+        plain = st.builds(lambda a, d, w: {"algo": a, "depth": d, "width": w},
+                          st.sampled_from(sorted(common.STORE_ALGOS)), st.integers(1, 4), st.integers(1, 3))
+        if not exact:
+            return plain
+        whole = st.sampled_from(sorted(common.STORE_ALGOS)).map(
+            lambda a: {"algo": a, "depth": EXACT_LAYOUTS[a][0], "width": EXACT_LAYOUTS[a][1]})
+        return st.one_of(plain, plain, plain, plain, plain, plain, plain, whole)
     return st.sampled_from(sorted(common.STORE_ALGOS)).map(lambda a: {"algo": a, "depth": 3, "width": 2})
 
 
